@@ -48,6 +48,9 @@ PAYLOADS = [
     ('expr', "lambda: 1"),
     ('name', 'float32'), ('name', 'np.float64'), ('name', 'numpy.uint8'), ('name', 'float'), ('name', 'int'),
     ('name', 'os'), ('name', 'sys.exit'), ('name', 'quit'), ('name', 'dtype'), ('name', 'ndarray'), ('name', 'str'),
+    # dotted names whose prefix is an importable module other than numpy: resolving them by import runs module code
+    ('modname', 'colorsys.float32'), ('modname', 'sched.uint8'), ('modname', 'netrc.float64'), ('modname', 'tabnanny.float32'),
+    ('modname', 'pyclbr.int32'), ('modname', 'plistlib.float32'), ('modname', 'wave.uint8'), ('modname', 'xml.dom.minidom.float32'),
     ('path', '../../../../{canary_rel}'), ('path', '/{canary_abs}'), ('path', '..'), ('path', 'a/../../b'),
     ('num', '1e400'), ('num', '-0'), ('num', '007'), ('num', '99999999999999999999999'), ('num', 'nan'), ('num', '0x10'),
     ('misc', ''), ('misc', 'ünï çødé'), ('misc', 'A' * 300), ('misc', '# kapture format: 9.9'), ('misc', '%s%s%n'),
